@@ -1,7 +1,8 @@
 import SamVerif.Props.C06
 import SamVerif.Props.C06b
+import SamVerif.Props.C06c
 /-! Axiom audit of every C06 property theorem (parsed by vlib/common.py). -/
-open SamVerif.IntRange SamVerif.Assign SamVerif.Gates
+open SamVerif.IntRange SamVerif.Assign SamVerif.Gates SamVerif.Scope
 #print axioms literal_error_iff
 #print axioms errors_aligned
 #print axioms above_range_always_rejected
@@ -32,3 +33,9 @@ open SamVerif.IntRange SamVerif.Assign SamVerif.Gates
 #print axioms member_conforms_iff
 #print axioms conformance_exact
 #print axioms bound_gate
+#print axioms scope_exit_restores
+#print axioms use_after_pop_unresolved
+#print axioms use_after_pop_resolves_outer
+#print axioms visit_wellNested
+#print axioms iflet_binding_not_in_else
+#print axioms binding_not_visible_after
